@@ -288,7 +288,7 @@ pub(crate) fn check_repository<S: Open>(
 
     let index_be = GlobalIndex::new_from_index(index_collector.into_index());
 
-    let packs = check_trees(repo, be, &index_be, trees, &collector)
+    let used_blobs = check_trees(repo, be, &index_be, trees, &collector)
         .map_err(|err| collector.add_error(CheckError::ErrorCheckingTrees { source: err }))
         .unwrap_or_default();
 
@@ -297,7 +297,13 @@ pub(crate) fn check_repository<S: Open>(
             .into_index()
             .into_iter()
             .filter(|p| !missing_packs.contains_key(&p.id))
-            .filter(|p| packs.contains(&p.id));
+            // read every pack which contains a used blob - if blobs are saved more than once, any
+            // of the copies can be the one used when reading the repository
+            .filter(|p| {
+                p.blobs
+                    .iter()
+                    .any(|blob| used_blobs.contains(&(blob.tpe, blob.id)))
+            });
 
         debug!("using read-data-subset {:?}", opts.read_data_subset);
         let packs = opts.read_data_subset.apply(packs);
@@ -675,8 +681,9 @@ fn check_trees<S: Open>(
     index: &impl ReadGlobalIndex,
     snap_trees: Vec<TreeId>,
     collector: &CheckResultsCollector,
-) -> RusticResult<BTreeSet<PackId>> {
-    let mut packs = BTreeSet::new();
+) -> RusticResult<BTreeSet<(BlobType, BlobId)>> {
+    let mut used_blobs = BTreeSet::new();
+    used_blobs.extend(snap_trees.iter().map(|id| (BlobType::Tree, BlobId::from(**id))));
     let p = repo.progress_counter("checking trees...");
     let mut tree_streamer = TreeStreamerOnce::new(be, index, snap_trees, p)?;
     while let Some(item) = tree_streamer.next().transpose()? {
@@ -705,8 +712,8 @@ fn check_trees<S: Open>(
                                         blob_id: *id,
                                     });
                                 }
-                                Some(entry) => {
-                                    _ = packs.insert(entry.pack);
+                                Some(_) => {
+                                    _ = used_blobs.insert((BlobType::Data, BlobId::from(**id)));
                                 }
                             }
                         }
@@ -730,8 +737,8 @@ fn check_trees<S: Open>(
                                     blob_id: id,
                                 });
                             }
-                            Some(entry) => {
-                                _ = packs.insert(entry.pack);
+                            Some(_) => {
+                                _ = used_blobs.insert((BlobType::Tree, BlobId::from(*id)));
                             }
                         }, // subtree is ok
                     }
@@ -741,7 +748,7 @@ fn check_trees<S: Open>(
         }
     }
 
-    Ok(packs)
+    Ok(used_blobs)
 }
 
 /// Check if a pack is valid
